@@ -5,13 +5,21 @@
      HEADER (#include <Arduino.h>), the library includes (Servo.h, LiquidCrystal.h,
      Wire.h + LiquidCrystal_I2C.h), the helper snippets (LCD helper, list helper, len
      helper), the globals (user globals first, then device state in declaration order,
-     then the LCD animation states found in setup/loop), the user function definitions
-     (in definition order, NO prototypes), the ultrasonic measurement helpers (sorted by
-     sensor name), void setup(), void loop().
+     then the LCD animation states found in setup/loop), the PROTOTYPES (one forward
+     declaration per emitted user function variant, in definition order, then one per
+     ultrasonic measurement helper, sorted by sensor name - added by the fix "forward-declare
+     functions"), the user function definitions (in definition order), the ultrasonic
+     measurement helpers (sorted by sensor name), void setup(), void loop().
 
    Abstractly every top-level item DEFINES some identifiers (the names it declares at
    file scope) and USES some (the file-scope names its text mentions); C++ requires every
-   use to be preceded by a declaration (a function may mention itself).  No proofs here. *)
+   use to be preceded by a declaration (a function may mention itself).  A prototype declares
+   the name of its function; besides that it mentions only parameter / return types (int,
+   float, bool, String, __redu_list<T>), which come from Arduino.h and the list helper snippet
+   - both earlier by the section order - and are not tracked as uses of the prototype.
+
+   [stitch_noproto] / [guard_noproto] are the order and the guard BEFORE the repair, kept as the
+   contrast that shows what the prototypes are for.  No proofs here. *)
 From Coq Require Import ZArith List Bool.
 From RV Require Import Base.Wire.
 Import ListNotations.
@@ -22,8 +30,8 @@ Definition ident := Z.
 Inductive skind : Type :=
 | KInclude | KHelper | KGlobal | KFunction | KUltra | KSetup | KLoop | KProto.
 
-(* position of a section kind in the emitted text; prototypes (only produced by the
-   proposed repair [stitch_proto]) sit between the globals and the functions *)
+(* position of a section kind in the emitted text; the prototypes sit between the globals
+   and the functions *)
 Definition rank (k : skind) : Z :=
   match k with
   | KInclude => 0 | KHelper => 1 | KGlobal => 2 | KProto => 3 | KFunction => 4
@@ -49,8 +57,22 @@ Record sketch : Type := {
 
 Definition tag (k : skind) (b : body) : item := (k, b).
 
+(* one forward declaration per function definition / ultrasonic helper *)
+Definition proto_of (b : body) : item := (KProto, (fst b, [])).
+Definition protos (sk : sketch) : list item := map proto_of (sk_functions sk ++ sk_ultras sk).
+
 (* the emitter's order *)
 Definition stitch (sk : sketch) : list item :=
+  map (tag KInclude) (sk_includes sk) ++
+  map (tag KHelper) (sk_helpers sk) ++
+  map (tag KGlobal) (sk_globals sk) ++
+  protos sk ++
+  map (tag KFunction) (sk_functions sk) ++
+  map (tag KUltra) (sk_ultras sk) ++
+  [tag KSetup (sk_setup sk); tag KLoop (sk_loop sk)].
+
+(* the order before the repair: no prototypes *)
+Definition stitch_noproto (sk : sketch) : list item :=
   map (tag KInclude) (sk_includes sk) ++
   map (tag KHelper) (sk_helpers sk) ++
   map (tag KGlobal) (sk_globals sk) ++
@@ -98,38 +120,10 @@ Definition section_ok (avail : list ident) (k : skind) (l : list body) : bool :=
 Definition body_ok (avail : list ident) (b : body) : bool :=
   forallb (fun u => memz u (fst b ++ avail)) (snd b).
 
+(* with the prototypes a function (and an ultrasonic helper) may mention ANY user function and
+   ANY ultrasonic helper, wherever it is defined; everything else as before: includes, helper
+   snippets and globals only what precedes them, setup / loop everything at file scope *)
 Definition guard (sk : sketch) : bool :=
-  let inc := defs_of (sk_includes sk) in
-  let hlp := defs_of (sk_helpers sk) in
-  let glb := defs_of (sk_globals sk) in
-  let fns := defs_of (sk_functions sk) in
-  let ult := defs_of (sk_ultras sk) in
-  section_ok [] KInclude (sk_includes sk) &&
-  section_ok inc KHelper (sk_helpers sk) &&
-  section_ok (hlp ++ inc) KGlobal (sk_globals sk) &&
-  (* functions: only includes, helper snippets, globals, themselves and EARLIER functions *)
-  section_ok (glb ++ hlp ++ inc) KFunction (sk_functions sk) &&
-  section_ok (glb ++ hlp ++ inc) KUltra (sk_ultras sk) &&
-  body_ok (ult ++ fns ++ glb ++ hlp ++ inc) (sk_setup sk) &&
-  body_ok (fst (sk_setup sk) ++ ult ++ fns ++ glb ++ hlp ++ inc) (sk_loop sk).
-
-(* ---- the proposed repair (proposed_fixes/c06_ultra_helper_order.patch): forward
-        declarations of every user function and every ultrasonic helper are emitted
-        after the globals and before the first function definition ---- *)
-Definition proto_item (sk : sketch) : item :=
-  (KProto, (defs_of (sk_functions sk) ++ defs_of (sk_ultras sk), [])).
-
-Definition stitch_proto (sk : sketch) : list item :=
-  map (tag KInclude) (sk_includes sk) ++
-  map (tag KHelper) (sk_helpers sk) ++
-  map (tag KGlobal) (sk_globals sk) ++
-  [proto_item sk] ++
-  map (tag KFunction) (sk_functions sk) ++
-  map (tag KUltra) (sk_ultras sk) ++
-  [tag KSetup (sk_setup sk); tag KLoop (sk_loop sk)].
-
-(* with prototypes a function may mention ANY user function and any ultrasonic helper *)
-Definition guard_proto (sk : sketch) : bool :=
   let inc := defs_of (sk_includes sk) in
   let hlp := defs_of (sk_helpers sk) in
   let glb := defs_of (sk_globals sk) in
@@ -143,7 +137,23 @@ Definition guard_proto (sk : sketch) : bool :=
   body_ok (ult ++ fns ++ glb ++ hlp ++ inc) (sk_setup sk) &&
   body_ok (fst (sk_setup sk) ++ ult ++ fns ++ glb ++ hlp ++ inc) (sk_loop sk).
 
-(* ---- the shape of the listed finding: a user function that calls
+(* the guard the order without prototypes needed: functions only includes, helper snippets,
+   globals, themselves and EARLIER functions - no ultrasonic helper, no later function *)
+Definition guard_noproto (sk : sketch) : bool :=
+  let inc := defs_of (sk_includes sk) in
+  let hlp := defs_of (sk_helpers sk) in
+  let glb := defs_of (sk_globals sk) in
+  let fns := defs_of (sk_functions sk) in
+  let ult := defs_of (sk_ultras sk) in
+  section_ok [] KInclude (sk_includes sk) &&
+  section_ok inc KHelper (sk_helpers sk) &&
+  section_ok (hlp ++ inc) KGlobal (sk_globals sk) &&
+  section_ok (glb ++ hlp ++ inc) KFunction (sk_functions sk) &&
+  section_ok (glb ++ hlp ++ inc) KUltra (sk_ultras sk) &&
+  body_ok (ult ++ fns ++ glb ++ hlp ++ inc) (sk_setup sk) &&
+  body_ok (fst (sk_setup sk) ++ ult ++ fns ++ glb ++ hlp ++ inc) (sk_loop sk).
+
+(* ---- the shapes of the two repaired findings: a user function that calls
         <sensor>.measure_distance() ---- *)
 Definition ultra_in_function (core fn helper : ident) : sketch :=
   {| sk_includes := [([core], [])];
